@@ -904,6 +904,14 @@ def r4c_ansi_sequences(ctx):
             pats.append((c, fold_text(ctx, f, c.args[0]), folded_flags(ctx, f, c, 1)))
         elif isinstance(c, ast.Call) and isinstance(c.func, ast.Attribute) and is_name(c.func.value, 're') and c.func.attr == 'sub' and len(c.args) >= 3:
             pats.append((c, fold_text(ctx, f, c.args[0]), folded_flags(ctx, f, c, 4)))
+        elif isinstance(c, ast.Call) and isinstance(c.func, ast.Attribute) and c.func.attr == 'sub' and isinstance(c.func.value, ast.Name) and c.func.value.id in f.module.assigns:
+            # a pattern compiled once at module level
+            try:
+                rx = consts.Folder(ctx.prog).fold(f.module, f.module.assigns[c.func.value.id])
+            except consts.NotConstant:
+                rx = None
+            if isinstance(rx, consts.Regex):
+                pats.append((c, rx.pattern, rx.flags))
     rep.floor('C05.R4c', 'patterns applied by strip_ansi', len(pats), 1)
     E = '\x1b'
     samples = [(E + '[31mred' + E + '[0m', 'red'), (E + '[0;35mX' + E + '[m', 'X'), (E + '[1;32;40mbold' + E + '[K', 'bold'), ('plain [31m text', 'plain [31m text'),
